@@ -4,7 +4,7 @@ inlined fragment), fragments shared by several operations."""
 import os
 import sys
 import textwrap
-from .e2e import generate_client, SCRATCH
+from .e2e import generate_client, SCRATCH, write_helper
 
 SCHEMA = """
 interface Node { id: ID! }
@@ -17,15 +17,13 @@ type Query { me: User node: Node actor: Actor }
 
 
 def _mixins_module():
-    os.makedirs(SCRATCH, exist_ok=True)
-    with open(os.path.join(SCRATCH, "pyvc_mixins.py"), "w") as f:
-        f.write(textwrap.dedent("""
-            class OpFieldMixin: pass
-            class SecondMixin: pass
-            class FragDefMixin: pass
-            class FragFieldMixin: pass
-            class InlinedMixin: pass
-        """))
+    write_helper("pyvc_mixins", textwrap.dedent("""
+        class OpFieldMixin: pass
+        class SecondMixin: pass
+        class FragDefMixin: pass
+        class FragFieldMixin: pass
+        class InlinedMixin: pass
+    """))
     if SCRATCH not in sys.path:
         sys.path.insert(0, SCRATCH)
 
